@@ -10,7 +10,6 @@
 package simrt
 
 import (
-	"sync/atomic"
 	"container/heap"
 	"fmt"
 	"math/rand/v2"
@@ -18,6 +17,7 @@ import (
 	"sort"
 	"strings"
 	"sync"
+	"sync/atomic"
 	"time"
 )
 
@@ -268,18 +268,18 @@ func (s *Sim) SetScript(ds []Decision) {
 	}
 }
 
-func (s *Sim) Now() time.Duration        { return s.now }
-func (s *Sim) Hash() uint64              { return s.hash }
-func (s *Sim) Steps() int                { return s.steps }
-func (s *Sim) Died() string              { return s.died }
-func (s *Sim) Decisions() []Decision     { return s.rec }
-func (s *Sim) WorldRand() *rand.Rand     { return s.wrng }
-func (s *Sim) Faults() map[string]int    { return s.faultFired }
+func (s *Sim) Now() time.Duration         { return s.now }
+func (s *Sim) Hash() uint64               { return s.hash }
+func (s *Sim) Steps() int                 { return s.steps }
+func (s *Sim) Died() string               { return s.died }
+func (s *Sim) Decisions() []Decision      { return s.rec }
+func (s *Sim) WorldRand() *rand.Rand      { return s.wrng }
+func (s *Sim) Faults() map[string]int     { return s.faultFired }
 func (s *Sim) FaultSites() map[string]int { return s.faultSeen }
-func (s *Sim) Probes() map[string]int    { return s.probes }
-func (s *Sim) Cfg() Config               { return s.cfg }
-func (s *Sim) Goroutines() int           { return len(s.gs) }
-func (s *Sim) Trace() []string           { return s.trace }
+func (s *Sim) Probes() map[string]int     { return s.probes }
+func (s *Sim) Cfg() Config                { return s.cfg }
+func (s *Sim) Goroutines() int            { return len(s.gs) }
+func (s *Sim) Trace() []string            { return s.trace }
 
 // Probe counts a "rare condition reached" marker.
 func Probe(name string) {
@@ -343,7 +343,6 @@ func (s *Sim) SetOnIdle(f func()) { s.onIdle = f }
 // WallProgress returns a counter that grows with every scheduling step of any
 // simulation of this process, and the simulation that is running now (nil if none).
 func WallProgress() (int64, *Sim) { return wallProgress.Load(), wallSim.Load() }
-
 
 func (s *Sim) newG(site string, group int) *G {
 	g := &G{id: len(s.gs), site: site, group: group, wake: make(chan struct{}, 1), exited: make(chan struct{})}
